@@ -258,6 +258,9 @@ impl Ans {
 pub struct Fault {
     child: bool,
     k: usize,
+    /// the system call the deviation was enumerated for (-1: any).  A deviation on the other side of the fork can
+    /// change what call #k is; the answer is only given to the call it was meant for.
+    nr: i64,
     ans: Ans,
 }
 
@@ -392,7 +395,7 @@ impl Plan for FdPlan {
             }
         }
         for (i, f) in self.faults.iter().enumerate() {
-            if f.child == child && f.k == idx {
+            if f.child == child && f.k == idx && (f.nr < 0 || f.nr == nr) {
                 self.hit[i] = true;
                 return match f.ans {
                     Ans::Errno(e) if nr == libc::SYS_close => Decision::PassThenForce(-(e as i64)),
@@ -432,7 +435,7 @@ impl Plan for FdPlan {
             return;
         }
         for f in &self.faults {
-            if f.child || f.k != idx {
+            if f.child || f.k != idx || !(f.nr < 0 || f.nr == c.nr) {
                 continue;
             }
             let Ans::Out(kind, v) = f.ans else { continue };
@@ -683,6 +686,7 @@ fn case_json(name: &str, faults: &[Fault], drop_close: Option<i32>) -> Value {
         "errno": faults.iter().map(|f| if let Ans::Errno(e) = f.ans { json!(e) } else { Value::Null }).collect::<Vec<_>>(),
         "answer": faults.iter().map(|f| f.ans.encode()).collect::<Vec<_>>(),
         "child": faults.iter().map(|f| f.child).collect::<Vec<_>>(),
+        "nr": faults.iter().map(|f| f.nr).collect::<Vec<_>>(),
         "drop_close_errno": drop_close,
         "start": start_name(),
     })
@@ -1061,7 +1065,7 @@ fn points(o: &CaseOut) -> Vec<Fault> {
     let mut v = Vec::new();
     for (k, c) in o.parent_calls.iter().enumerate() {
         for a in deviations(c) {
-            v.push(Fault { child: false, k, ans: a });
+            v.push(Fault { child: false, k, nr: c.nr, ans: a });
         }
     }
     for (k, nr) in &o.child_calls {
@@ -1069,7 +1073,7 @@ fn points(o: &CaseOut) -> Vec<Fault> {
             continue;
         }
         for e in menu(*nr).0 {
-            v.push(Fault { child: true, k: *k, ans: Ans::Errno(*e) });
+            v.push(Fault { child: true, k: *k, nr: *nr, ans: Ans::Errno(*e) });
         }
     }
     v.dedup();
@@ -1126,7 +1130,7 @@ fn run_scenario(mut s: Scn, thorough: bool, start: i32) -> Report {
     }
     r.bound(&format!("calls[{name}]"), json!({"parent": n, "child": base.child_calls.iter().filter(|c| c.1 != libc::SYS_fork).count()}));
     for nr in base.parent_calls.iter().map(|c| &c.nr).chain(base.child_calls.iter().map(|c| &c.1)) {
-        if menu(*nr).0.is_empty() && !matches!(*nr, libc::SYS_exit | libc::SYS_exit_group | libc::SYS_munmap | libc::SYS_uname | libc::SYS_fork) {
+        if menu(*nr).0.is_empty() && !matches!(*nr, libc::SYS_exit | libc::SYS_exit_group | libc::SYS_munmap | libc::SYS_uname | libc::SYS_fork | libc::SYS_lseek) {
             r.note(format!("{name}: no errno menu for {} — call not failed", sysx::name(*nr)));
         }
     }
@@ -1255,11 +1259,13 @@ fn replay(v: &Value) -> Report {
     let ks: Vec<usize> = v["k"].as_array().map(|a| a.iter().filter_map(|x| x.as_u64().map(|x| x as usize)).collect()).unwrap_or_default();
     let es: Vec<i32> = v["errno"].as_array().map(|a| a.iter().map(|x| x.as_i64().map(|x| x as i32).unwrap_or(libc::EIO)).collect()).unwrap_or_default();
     let cs: Vec<bool> = v["child"].as_array().map(|a| a.iter().map(|x| x.as_bool().unwrap_or(false)).collect()).unwrap_or_default();
+    let nrs: Vec<i64> = v["nr"].as_array().map(|a| a.iter().map(|x| x.as_i64().unwrap_or(-1)).collect()).unwrap_or_default();
     let answers: Vec<Option<Ans>> = v["answer"].as_array().map(|a| a.iter().map(|x| x.as_str().and_then(Ans::decode)).collect()).unwrap_or_default();
     let faults: Vec<Fault> = ks
         .iter()
         .enumerate()
         .map(|(i, k)| Fault {
+            nr: nrs.get(i).copied().unwrap_or(-1),
             child: cs.get(i).copied().unwrap_or(false),
             k: *k,
             ans: answers.get(i).copied().flatten().unwrap_or_else(|| Ans::Errno(es.get(i).copied().unwrap_or(libc::EIO))),
